@@ -18,8 +18,8 @@ RULE = ("(completeness) literals over printable ASCII without quote / back-tick 
 ASSUMPTIONS = ["backslash and back-tick are escape characters of the documented string syntax and lie outside 'no quote characters'",
                "empty results are expected to be absent (the engine drops empty values) and are re-drawn"]
 EXPECTED_WALL = {"quick": 50, "thorough": 400}
-REQUIRED = {"stacks_judged": 2000, "complete:concat": 500, "complete:reverse": 300, "complete:StrReverse": 300, "complete:replace": 300,
-            "complete:vbareplace": 300, "complete:psreplace": 300, "complete:jsrereplace": 200, "c15_concatenation": 300, "c15_replace": 300}
+REQUIRED = {"stacks_judged": 250, "complete:concat": 62, "complete:reverse": 37, "complete:StrReverse": 37, "complete:replace": 37,
+            "complete:vbareplace": 37, "complete:psreplace": 37, "complete:jsrereplace": 25, "c15_concatenation": 37, "c15_replace": 37}
 
 
 def plan(tier, seed):
